@@ -4,6 +4,7 @@ from ..core import AnalysisError
 from ..srcmodel import walk_no_nested, calls_in, strip_doc, raised_class
 from ..evalx import fold_function, FoldError
 from ..emit import SStr
+from ..dispatch import dispatch_on
 
 EXPLANATION = (
     "Tables and their agreement - the part tests sample on three strings. C15.a: the string-escape decoder is total over "
@@ -253,3 +254,61 @@ def run(ctx, rep, tier):
     rep.check(model.has("DirectMatch.convert", "DFTransition([character])"), "C15.g", "DirectMatch.convert", "exact character on each step", "DirectMatch transition symbol changed")
     cm = ast.unparse(model.func("CaseDirectMatch.convert"))
     rep.check(model.has("CaseDirectMatch.convert", "DFTransition(self._create_casei_from(character))"), "C15.g", "CaseDirectMatch.convert", "folded set on each step", "CaseDirectMatch transition symbols changed")
+
+
+# ---------------------------------------------------------------------------------------------------------------- C15.i
+CONVERTER_OF = {"TOKEN:CHAR_CONSTANT": {"_convert_char_const"}, "TOKEN:RADIX_NUMBER": {"_convert_int"}, "TOKEN:STRING": {"_convert_string", "_convert_binary_string"}}
+
+
+def _token_conversion_discipline(ctx, rep, tier):
+    """C15.i: each literal terminal has one converter that gives it its meaning (C15.a-e decide the converters). A consumer that reads the token's
+    text itself - slicing it, indexing it - bypasses the escapes. For every dispatch arm on a label whose first child is a literal terminal, every
+    read of that child's `.value` is the argument of the terminal's converter (uses inside f-strings of diagnostics excepted)."""
+    import ast
+    model, g = ctx.model, ctx.grammar
+    consts = ctx.module_str_lists()
+    rep.rule("C15.i", "the text of a literal token (char constant, number, string) is only ever read through its converter")
+    n = 0
+    for q in ("ParseCtx._parse_integer_expr", "ParseCtx._parse_math_expr", "ParseCtx._parse_match_expr", "ParseCtx._parse_assign_stmt", "ParseCtx._parse_out_decl"):
+        fn = model.func(q)
+        try:
+            d = dispatch_on(fn.body, "expr.data", consts)
+            arms = [(lab, d.arm_for(lab)) for lab in sorted(d.handled())]
+        except AnalysisError:
+            arms = []
+        for lab, arm in arms:
+            try:
+                kinds = g.child_at(lab, 0)
+            except AnalysisError:
+                continue
+            conv = set().union(*(CONVERTER_OF.get(k, set()) for k in kinds)) if kinds else set()
+            if not conv or not all(k in CONVERTER_OF for k in kinds):
+                continue
+            aliases = {"expr.children[0]"}
+            for st in arm or []:
+                for a in ast.walk(st):
+                    if isinstance(a, ast.Assign) and len(a.targets) == 1 and isinstance(a.targets[0], ast.Name) and ast.unparse(a.value) in aliases:
+                        aliases.add(a.targets[0].id)
+            for st in arm or []:
+                for node in ast.walk(st):
+                    if isinstance(node, ast.Attribute) and node.attr == "value" and ast.unparse(node.value) in aliases:
+                        par = model.parents.get(node)
+                        if isinstance(par, ast.FormattedValue):
+                            continue
+                        n += 1
+                        ok = isinstance(par, ast.Call) and node in par.args and isinstance(par.func, ast.Attribute) and par.func.attr in conv
+                        rep.check(ok, "C15.i", q, f"{lab}: token text goes through {'/'.join(sorted(conv))}",
+                                  f"`{ast.unparse(par)[:70]}` reads the text of a {sorted(kinds)[0][6:]} token directly: escapes are not interpreted on this path "
+                                  "(`['\\n']` inside brackets would denote 110, the letter n)", line=node.lineno)
+    if n < 6:
+        raise AnalysisError(f"C15.i: only {n} literal-token reads found (floor 6)")
+
+
+_run_i15 = run
+
+
+def run(ctx, rep, tier):
+    _run_i15(ctx, rep, tier)
+    _token_conversion_discipline(ctx, rep, tier)
+    from .shared import delegate
+    delegate(ctx, rep, tier, "C03", ("C03.n",), "C15.j", "a string constant assigned at the start keeps its first byte: the initial terminator is written before the start actions run")
